@@ -190,6 +190,13 @@ func vfHBuildCases() []vfHCase {
 	type withIface struct{ I any }
 	var nilPtr *uint32
 	var nilIface any
+	type namedPtr *uint32
+	type withPP struct{ PP **int64 }
+	i32, i64, u32, u16, str := int32(7), int64(-9), uint32(11), uint16(3), "s"
+	pI32, pI64, pStr := &i32, &i64, &str
+	ppStr := &pStr
+	np := namedPtr(&u32)
+	sl := []*uint16{&u16, &u16}
 	encVals := []struct {
 		what string
 		v    any
@@ -199,10 +206,17 @@ func vfHBuildCases() []vfHCase {
 		{"nil-interface", nilIface}, {"nil-pointer", nilPtr}, {"struct{nil *int32}", withPtr{}}, {"struct{nil any}", withIface{}},
 		{"[]int", []int{1, 2}}, {"*struct{map}", &struct{ M map[string]string }{M: map[string]string{"a": "b"}}},
 		{"[]chan", []chan int{nil}}, {"**uint32(nil inner)", &nilPtr},
+		// values that reach a supported kind only through several pointer levels or a named pointer type
+		{"**int32", &pI32}, {"***string", &ppStr}, {"struct{**int64}", withPP{&pI64}}, {"[]**int32", []**int32{&pI32, &pI32}},
+		{"named *uint32", namedPtr(&u32)}, {"*named *uint32", &np}, {"[2]*[]*uint16", [2]*[]*uint16{&sl, &sl}},
 	}
 	for _, ev := range encVals {
 		ev := ev
-		cases = append(cases, vfHCase{Target: "enc:Write(" + ev.what + ")", Origin: "unsupported value", Enc: func() error {
+		origin := "unsupported value"
+		if strings.Contains(ev.what, "**") || strings.Contains(ev.what, "named *") || strings.Contains(ev.what, "]*[") {
+			origin = "pointer chain" // encodable or not: either outcome is fine, it must only be decided without crashing
+		}
+		cases = append(cases, vfHCase{Target: "enc:Write(" + ev.what + ")", Origin: origin, Enc: func() error {
 			w := messages.NewWriter()
 			if err := w.WriteFrom(ev.v); err != nil {
 				return err
@@ -303,7 +317,7 @@ func vfHRunOne(c vfHCase, idx int, res *vfHResult) {
 		switch {
 		case c.Enc != nil:
 			err = c.Enc()
-			if err == nil {
+			if err == nil && c.Origin != "pointer chain" {
 				viol("c13-unsupported-value-encoded", "%s returned nil: an unsupported value was encoded without an error", c.Target)
 			}
 		case c.Target == "envelope":
